@@ -394,7 +394,7 @@ Proof.
   intros [cur [c [b [HB [HT HF]]]]]. unfold pstep. destruct (p_any s) eqn:Ea.
   - apply (step_norm s cur c b HB (HT eq_refl)).
   - set (s1 := mkP (p_indices s) [] (set_all (p_indices s) (hd false (p_oracle s)) (p_mask s)) false
-                   (tl (p_oracle s)) ((hd 0 (p_indices s), length (p_indices s)) :: p_calls s)).
+                   (tl (p_oracle s)) _).
     destruct HB as [B1 [B2 [B3 [B4 [B5 B6]]]]]. specialize (HF eq_refl).
     apply (step_norm s1 (fun _ => false) c (hd false (p_oracle s))).
     + refine (conj B1 (conj B2 (conj _ (conj _ (conj _ _))))).
